@@ -67,7 +67,7 @@ pub(crate) mod __verif_setsum {
         kani::cover!(true);
     }
 
-    //@ H kind=complete tier=quick timeout=300 oblig="setsum::add_state::kani-contract"
+    //@ H kind=complete tier=quick timeout=300 native=no oblig="setsum::add_state::kani-contract"
     #[kani::proof_for_contract(add_state)]
     #[kani::unwind(9)]
     fn contract_add_state() {
@@ -76,12 +76,36 @@ pub(crate) mod __verif_setsum {
         let _ = add_state(a, b);
     }
 
-    //@ H kind=complete tier=quick timeout=300 oblig="setsum::invert_state::kani-contract"
+    //@ H kind=complete tier=quick timeout=300 native=no oblig="setsum::invert_state::kani-contract"
     #[kani::proof_for_contract(invert_state)]
     #[kani::unwind(9)]
     fn contract_invert_state() {
         let a: [u32; 8] = kani::any();
         let _ = invert_state(a);
+    }
+
+    // the same two contracts as plain assume/assert harnesses: natively replayable (contract attributes
+    // are erased outside Kani)
+    //@ H kind=complete tier=quick timeout=300 oblig="setsum::add_state::post"
+    #[kani::proof]
+    #[kani::unwind(9)]
+    fn plain_add_state() {
+        let a: [u32; 8] = kani::any();
+        let b: [u32; 8] = kani::any();
+        kani::assume(weak(&a) && weak(&b) && (canon(&a) || canon(&b)));
+        let r = add_state(a, b);
+        assert!(canon(&r) && is_add(&a, &b, &r));
+        kani::cover!(true);
+    }
+
+    //@ H kind=complete tier=quick timeout=300 oblig="setsum::invert_state::post"
+    #[kani::proof]
+    #[kani::unwind(9)]
+    fn plain_invert_state() {
+        let a = any_canon();
+        let r = invert_state(a);
+        assert!(weak(&r) && is_neg(&a, &r));
+        kani::cover!(true);
     }
 
     // hash_to_state(h)[i] == le32(h[4i..4i+4]) mod P[i]  for every 32-byte hash (the published definition)
